@@ -106,6 +106,21 @@ def cases(tier, seed):
         ops.append("rt.bread %d %d" % (lo, 4))
         for i in range(0, len(ops) - 2, 300):
             cs.append(Case("%s-%d" % (name, i), ops[:2] + ops[2 + i:2 + i + 300], ("block-write",)))
+    # the top of the address space: requests that reach and cross 2^32
+    TOP = 2 ** 32
+    for be in (0, 1):
+        ents = "u16:%d:0101:t|u32:%d:%s:%s|u64:%d:%s:%s|u16:%d:0202:t" % (
+            TOP - 17, TOP - 14, default_for("u32", ""), checks("u32")["max"], TOP - 9, default_for("u64", ""), checks("u64")["range"], TOP - 2)
+        # (no read-only area here: a request that crosses 2^32 always contains an unmapped word, and which of the two
+        # failure classes wins for such a request is not fixed by the statement)
+        for ai, aline in enumerate(("%d:6:rw:M|%d:16:rw:M" % (TOP - 30, TOP - 17), "%d:6:rw:M|%d:12:rw:M|%d:4:rw:CRW" % (TOP - 30, TOP - 17, TOP - 5))):
+            ops = ["rt.table %d %s %s" % (be, aline, "u16:%d:0909:t|" % (TOP - 28) + ents), "rt.init"]
+            for a in range(TOP - 24, TOP):
+                for n in sorted({0, 1, 2, 4, TOP - a - 1, TOP - a, TOP - a + 1, TOP - a + 3}):
+                    if 0 <= n <= 30:
+                        ops.append("rt.bwrite %d %s" % (a, words(rnd, n, rnd.choice(["zero", "small", "rnd"])) or "-"))
+            for i in range(0, len(ops) - 2, 300):
+                cs.append(Case("top-%d-%d-%d" % (be, ai, i), ops[:2] + ops[2 + i:2 + i + 300], ("top-of-address-space",)))
     # uninitialised
     cs.append(Case("uninit", ["rt.table 0 16:8:rw:M u16:16:0001:t", "rt.bwrite 16 0001", "rt.bwrite 16 -"], ("uninit",)))
     return cs
